@@ -53,6 +53,23 @@ theorem deser_ok_nonNone (O : Oracles) (opts : DeserOpts) (f : FieldDecl) (v y :
     split at h
     · cases h
     · rcases bindE_eq_ok h with ⟨ys, _, h2⟩; cases h2; rfl
+  case setOf imm g sz =>
+    unfold dSeq at h
+    split at h
+    · cases h
+    · rcases bindE_eq_ok h with ⟨ys, _, h2⟩
+      unfold mkSet at h2
+      split at h2
+      · cases h2
+      · cases h2; rfl
+  case mapOf kf vf sz =>
+    unfold dMap at h
+    split at h
+    · rcases bindE_eq_ok h with ⟨r, _, h2⟩
+      split at h2
+      · cases h2
+      · cases h2; rfl
+    · cases h
   case struct c fields defaults =>
     simp only [and_true_iff] at hex
     have hinl : c.inline = false := by simpa using hex.1.1.1
@@ -111,6 +128,27 @@ theorem lift_some_nonNone (O : Oracles) (opts : DeserOpts) (f : FieldDecl) (v w 
       cases hm : liftZip O opts gs js with
       | none => simp [hm] at h
       | some ws => simp [hm] at h; subst h; rfl
+  case setOf imm g sz =>
+    cases hl : listDoc v with
+    | none => simp [hl] at h
+    | some js =>
+      simp only [hl, Option.bind_some] at h
+      cases hm : mapO (lift O opts g) js with
+      | none => simp [hm] at h
+      | some ws =>
+        simp only [hm, Option.bind_some] at h
+        split at h
+        · cases h
+        · cases h; rfl
+  case mapOf kf vf sz =>
+    cases v with
+    | dict kvs =>
+      simp only at h
+      rcases Option.bind_eq_some_iff.mp h with ⟨r, _, h2⟩
+      split at h2
+      · cases h2
+      · cases h2; rfl
+    | _ => simp at h
   case struct c fields defaults =>
     simp only [and_true_iff] at hex
     have hinl : c.inline = false := by simpa using hex.1.1.1
